@@ -98,7 +98,7 @@ fn main() {
     let (scs, bounds, groups) = scen::enumerate(thorough);
     let mut reporter = Reporter::new("C17");
     let cfg = Cfg {
-        wall: Duration::from_secs(args.wall_s.unwrap_or(if thorough { 1500 } else { 50 })),
+        wall: Duration::from_secs(args.wall_s.unwrap_or(if thorough { 1500 } else { 55 })),
         threads: mc_core::cli::threads(),
         max_unknown: 12,
     };
@@ -107,16 +107,16 @@ fn main() {
     let mut ev = Evidence::new("C17", &args.tier, "fault_enumeration");
     stats.fill(
         &mut ev,
-        "scenarios = (request sequence | 3 concurrent requests, per request: response framing, consumer \
+        "scenarios = (request sequence | 3 concurrent requests, per request: request kind {GET, POST sized/chunked, Expect: 100-continue}, server interim behaviour, response framing, consumer \
          behaviour, server close kind FIN/reset at byte offset k of the response for EVERY k in 0..=len, \
          leftover bytes after the framed end, connector limit); inside a scenario every socket answer \
          (read: all/Pending/1 byte/next cut or every offset/half; write: all/Pending/1/half; flush, shutdown: \
          Ready/Pending), whether the close arrives with the last bytes or one quiescent point later and whether \
          the next request follows at once or after a settle are choice points explored up to the deviation \
-         bound. distinct = canonical observation (per request: framing, consumer, close kind+region {before \
+         bound. distinct = canonical observation (per request: request kind, interim behaviour, framing, consumer, close kind+region {before \
          head, in head, at head end, in body, at framed end}, leftover, outcome class, connection index and \
          position on it; connections created; max open; stall). non-trivial = the execution has a close/reset \
-         fault, a leftover, more than one request, or at least one non-default socket answer.",
+         fault, a leftover, an interim response, more than one request, or at least one non-default socket answer.",
     );
     ev.set("scenario_groups", groups);
     ev.set(
@@ -134,7 +134,8 @@ fn main() {
     ev.set("violating_executions", stats.violating_executions);
     ev.set("findings", Value::Array(reporter.summaries()));
     ev.set("known_findings_matched", reporter.known_count() as u64);
-    ev.assume("requests are bodiless GET/HEAD to one authority over plain HTTP/1.1 (no TLS, no HTTP/2, no proxy)");
+    ev.assume("requests: GET/HEAD without body, POST with a 17-byte Content-Length body (send_body) or a 2-chunk chunked body (send_stream), each with and without `Expect: 100-continue` (server: 100 then final | final at once | 100 then close); unsolicited 103 / 100 interim responses before the final one; one authority, plain HTTP/1.1 (no TLS, no HTTP/2, no proxy)");
+    ev.assume("after a final-at-once answer to an Expect request awc never sends the announced body and pools the connection; the scripted server then accepts the next request at that point (tally 'previous_Expect_request_body_was_never_sent'); the property text only constrains the response side, so this is recorded, not judged");
     ev.assume("limit clause: open = created by the connector, not dropped, poll_shutdown not yet called; the plain-TCP pool runs without disconnect timeout and drops closed connections at once, so counting a connection until its shutdown completed gives the same numbers (see tally 'open_plus_closing', 0 when they never differ); the graceful-close task of the TLS pool is not exercised");
     ev.assume("leftover bytes arrive together with the framed response; bytes arriving after the next request was written are indistinguishable from its response and are not enumerated");
     ev.assume("response sizes: 0, 5, 13 and 70000 body bytes; chunk lists [3,2], [3;ext,10 LWS,0;ext], [3,2]+trailer, [0x3000,1,0x8000,rest]");
